@@ -21,13 +21,26 @@ def sh(cmd, cwd=None, timeout=3600):
     return subprocess.run(cmd, cwd=cwd, stdout=subprocess.PIPE, stderr=subprocess.STDOUT, text=True, timeout=timeout)
 
 
-def lake_build():
-    """(ok, log). Serialised by a file lock so that checks started in parallel do not race."""
+def lake_build(pid):
+    """(ok, log, gen_problem). Serialised by a file lock so that checks started in parallel do not race.
+    For C08 the Lean definitions of the eight classes are first regenerated from the repository's
+    current cvn.py by the translator, then `PyemvGen` (generated definitions + per-class refinement
+    proofs) is built as well."""
     os.makedirs(os.path.join(LEAN, ".lake"), exist_ok=True)
     with open(os.path.join(LEAN, ".lake", "verif.lock"), "w") as lk:
         fcntl.flock(lk, fcntl.LOCK_EX)
         r = sh(["lake", "build"], cwd=LEAN)
-        return r.returncode == 0, r.stdout
+        if r.returncode != 0 or pid != "C08":
+            return r.returncode == 0, r.stdout, None
+        t = sh([sys.executable, os.path.join(core.HERE, "translate_cvn.py"), core.REPO,
+                os.path.join(LEAN, "PyemvGen", "CvnGen.lean")])
+        if t.returncode != 0:
+            return True, r.stdout, "translator: " + t.stdout.strip()[-300:]
+        g = sh(["lake", "build", "PyemvGen"], cwd=LEAN)
+        if g.returncode != 0:
+            errs = [ln for ln in g.stdout.split("\n") if ln.startswith("error:")][:4]
+            return True, r.stdout, "per-class refinement no longer checks against the current cvn.py: " + " | ".join(errs)[:900]
+        return True, r.stdout, None
 
 
 def strip_comments(src):
@@ -49,19 +62,24 @@ def grep_forbidden():
     return hits
 
 
-def obligations(pid):
+def obligations(pid, gen=True):
     reg = json.load(open(os.path.join(LEAN, "obligations.json")))
-    return reg.get(pid, [])
+    return reg.get(pid, []) + (reg.get(pid + "_gen", []) if gen else [])
 
 
-def audit(pid, workdir):
+def audit(pid, workdir, gen_ok=True):
     """#print axioms for every theorem registered for the property. Returns (names, discharged, problems)."""
-    names = obligations(pid)
+    names = obligations(pid, gen=True)
     if not names:
         return [], [], [f"no theorem registered for {pid}"]
+    has_gen = bool(json.load(open(os.path.join(LEAN, "obligations.json"))).get(pid + "_gen")) and gen_ok
+    if not gen_ok:
+        names_to_print = obligations(pid, gen=False)
+    else:
+        names_to_print = names
     path = os.path.join(workdir, f"Audit_{pid}.lean")
     with open(path, "w") as f:
-        f.write("import PyemvProps\n" + "".join(f"#print axioms {n}\n" for n in names))
+        f.write("import PyemvProps\n" + ("import PyemvGen\n" if has_gen else "") + "".join(f"#print axioms {n}\n" for n in names_to_print))
     r = sh(["lake", "env", "lean", path], cwd=LEAN)
     out = r.stdout
     problems = []; ok = []
@@ -243,14 +261,18 @@ def main():
     names, discharged = [], []
     try:
         t = time.time()
-        ok, log = lake_build()
+        ok, log, gen_problem = lake_build(pid)
         if not ok:
             proof_problems.append("lake build failed: " + log.strip()[-600:])
+        if gen_problem:
+            proof_problems.append(gen_problem)
         hits = grep_forbidden()
         if hits:
             proof_problems.append("forbidden construct in Lean sources: " + "; ".join(hits[:5]))
         if ok:
-            names, discharged, probs = audit(pid, work)
+            names, discharged, probs = audit(pid, work, gen_ok=not gen_problem)
+            if gen_problem:
+                probs = [p for p in probs if 'CvnRefines' not in p]
             proof_problems += probs
             if tier == "thorough":
                 mods = sorted({"PyemvProps." + pid})
